@@ -56,4 +56,11 @@ with open(V + "/seeded/README.md", "w") as f:
     f.write("| id | property | caught by quick check | result | first failing harness | needs |\n|---|---|---|---|---|---|\n")
     for r in rows:
         f.write("| %s | %s | %s | %s | %s | %s |\n" % (r[0], r[1], "yes" if r[2] else "NO", r[3], r[4], r[5]))
+    f.write("\nHistory: C13-A (a static cache of the last detected language) passed every check when it was first tried,\n"
+            "because each harness made a single call from a fresh library; the history prefix (an arbitrary earlier call of\n"
+            "the same operation, DESIGN.md section 4) was added because of it, and C13 now includes p6_auto. C09-A needed a\n"
+            "count-boundary cell that the quick tier did not have yet (17 tokens with a doubled separator after the 16th);\n"
+            "it was added before that trial ran. Everything else was caught by the checks as they stood.\n"
+            "\nBehaviour-preserving refactorings (12 patches from three further sub-agents, `seeded/benign/`) are the opposite test:\n"
+            "every relevant quick check must stay quiet on them (results in `seeded/benign/README.md`).\n")
 print("%d seeded, %d caught" % (len(rows), sum(1 for r in rows if r[2])))
